@@ -364,6 +364,9 @@ def run_check(prop, argv=None):
                     default=float(os.environ.get('VERIF_SCALE', '1') or 1))
     ap.add_argument('--no-evidence', action='store_true')
     ap.add_argument('--dump-digests')
+    ap.add_argument('--detect-only', action='store_true',
+                    help='mutation surveys: report the first unlisted '
+                         'violation key without minimising it')
     args = ap.parse_args(argv)
 
     if args.replay and args.expect_key:
@@ -436,6 +439,17 @@ def run_check(prop, argv=None):
     new_violations = []
     skipped_keys = []
     deadline = time.time() + (120 if tier == 'quick' else 900)
+    if args.detect_only:
+        for key, (case, msg) in by_key.items():
+            if key_matches(key, known) is None:
+                print('DETECTED property=%s key=%s' % (prop.ID, key))
+                print('  %s' % msg[:300])
+                return 1
+        if harness_error:
+            print('HARNESS-ERROR %s' % harness_error)
+            return 2
+        print('%s detect-only: nothing found in %d runs' % (prop.ID, agg['n']))
+        return 0
     for key, (case, msg) in by_key.items():
         kk = key_matches(key, known)
         if kk is not None:
